@@ -314,16 +314,22 @@ def generate(rng, ep):
         if props_last:
             props()
         d.line(depth, '</Item>')
-    for r in roots:
-        emit(r, 1)
-    if shared:
+    def dictionary():
         d.line(1, '<SharedStrings>')
         for key, data in shared.items():
             d.line(2, '<SharedString md5="%s">%s</SharedString>' % (key, wrap64(d.rng, base64.b64encode(data).decode())))
         d.line(1, '</SharedStrings>')
+    # docs/xml.md makes SharedStrings a child of the roblox element and does not fix its position
+    where = len(roots) if (not shared or rng.random() < 0.55) else rng.randrange(0, len(roots) + 1)
+    for i, r in enumerate(roots):
+        if shared and i == where:
+            dictionary()
+        emit(r, 1)
+    if shared and where >= len(roots):
+        dictionary()
     d.line(0, '</roblox>')
     return {"ep": ep, "logical": {"roots": roots, "inst": forest}, "text": "".join(d.out),
-            "style": {"referents": style, "props_last": props_last}}
+            "style": {"referents": style, "props_last": props_last, "dictionary_at": where}}
 
 
 def main():
